@@ -785,7 +785,12 @@ def check_C01(tier: str, seed: int) -> int:
     # theorems of Properties/C01Sites are re-checked against it
     from . import sites as _sites
     site_counts = _sites.regenerate(fw.LEAN_DIR)
-    ps = fw.ProofStatus("C01", ["Properties.C01", "Properties.C01Sites"])
+    ps = fw.ProofStatus("C01", ["Properties.C01", "Properties.C01Sites", "Properties.C01Prims", "Properties.C01Walk"])
+    if tier == "thorough" and ps.build_ok:
+        # the shared leanchecker pass leaves the regenerated table to this check
+        rs = fw.leanchecker_mods(["Hive.Gen.Sites", "Properties.C01Sites"])
+        if not rs["ok"]:
+            ps.problems.append("leanchecker rejects the regenerated site table or its theorems: " + rs["log"][-300:])
     hl = layers.hashseed_layer(seed, HASHSEED_BUDGET[tier])
     ok1 = use_simple_layer(v, "C01", hl, "hashseed", ["C01"])
     if (not ps.ok or not ok1) and not v.violations:
